@@ -133,10 +133,14 @@ func c03CSVVerbatim(c *Ctx, r *Report, rule string) {
 // ---------------------------------------------------------------- C02-f the POSIX flag yields leftmost-longest
 
 // c02PosixLongest (C02-f/posix-longest): in the regexp back end, whenever the
-// posix flag holds, the regexp handed back was built by regexp.CompilePOSIX /
-// MustCompilePOSIX or had Longest() called on it. Only those give the
+// posix flag may hold, a regexp is built by regexp.CompilePOSIX /
+// MustCompilePOSIX or has Longest() called on it. Only those give the
 // leftmost-longest semantics the flag selects; regexp.Compile of a POSIX
-// pattern is leftmost-first.
+// pattern is leftmost-first. Decided per acyclic path of every function of the
+// package that takes the flag: at each call of a leftmost-first constructor
+// (directly, or through a function-valued local last bound to one on that
+// path) the flag is known false by the decisions taken so far, or Longest() is
+// called on the result later on the path.
 func c02PosixLongest(c *Ctx, r *Report, rule string) {
 	const pkg = "rare/pkg/matchers/fastregex"
 	p := c.ByPath[pkg]
@@ -145,13 +149,36 @@ func c02PosixLongest(c *Ctx, r *Report, rule string) {
 		return
 	}
 	info := p.TypesInfo
+	ctorKind := func(e ast.Expr) int { // 1 leftmost-first, 2 POSIX, 0 neither
+		e = ast.Unparen(e)
+		var id *ast.Ident
+		switch t := e.(type) {
+		case *ast.SelectorExpr:
+			id = t.Sel
+		case *ast.Ident:
+			id = t
+		}
+		if id == nil {
+			return 0
+		}
+		f, ok := info.Uses[id].(*types.Func)
+		if !ok || f.Pkg() == nil || f.Pkg().Path() != "regexp" {
+			return 0
+		}
+		switch f.Name() {
+		case "Compile", "MustCompile":
+			return 1
+		case "CompilePOSIX", "MustCompilePOSIX":
+			return 2
+		}
+		return 0
+	}
 	n := 0
 	for _, fi := range c.AllFuncDecls(pkg) {
 		fd := fi.Decl
 		if fd.Body == nil || fd.Type.Params == nil {
 			continue
 		}
-		// functions with a bool parameter that return a *regexp.Regexp
 		var posix types.Object
 		for _, f := range fd.Type.Params.List {
 			for _, nm := range f.Names {
@@ -160,149 +187,100 @@ func c02PosixLongest(c *Ctx, r *Report, rule string) {
 				}
 			}
 		}
-		if posix == nil || fd.Type.Results == nil {
-			continue
-		}
-		retRe := false
-		for _, f := range fd.Type.Results.List {
-			if pt, ok := info.TypeOf(f.Type).(*types.Pointer); ok && isNamed(pt.Elem(), "regexp", "Regexp") {
-				retRe = true
-			}
-		}
-		if !retRe {
+		if posix == nil {
 			continue
 		}
 		fg := NewFGraph(fd.Body, info)
-		isPosixCtor := func(e ast.Expr) bool {
-			e = ast.Unparen(e)
-			if ce, ok := e.(*ast.CallExpr); ok {
-				nm := calleeName(info, ce)
-				return nm == "regexp.CompilePOSIX" || nm == "regexp.MustCompilePOSIX"
-			}
-			// the function value itself (compile = regexp.CompilePOSIX)
-			var id *ast.Ident
-			switch t := e.(type) {
-			case *ast.SelectorExpr:
-				id = t.Sel
-			case *ast.Ident:
-				id = t
-			}
-			if id != nil {
-				if f, ok := info.Uses[id].(*types.Func); ok && f.Pkg() != nil && f.Pkg().Path() == "regexp" {
-					return f.Name() == "CompilePOSIX" || f.Name() == "MustCompilePOSIX"
-				}
-			}
-			return false
-		}
 		type verdict struct {
-			pos token.Pos
-			res string
-			ok  bool
+			text string
+			ok   bool
 		}
 		seen := map[token.Pos]*verdict{}
 		enumPaths(fg, fg.Entry, func(id int) bool { return id == fg.Exit }, func(nodes []int, edges []FEdge) {
-			for _, e := range edges {
-				if e.Cond == nil || e.Tag != nil {
-					continue
-				}
-				for _, at := range atomise(Fact{e.Cond, nil, e.Truth}) {
-					if identObj(info, at.Cond) == posix && !at.Truth {
-						return // the flag is known false on this path
-					}
-				}
-			}
-			var rs *ast.ReturnStmt
-			for i := len(nodes) - 1; i >= 0 && rs == nil; i-- {
-				rs, _ = fg.Nodes[nodes[i]].N.(*ast.ReturnStmt)
-			}
-			if rs == nil || len(rs.Results) == 0 {
-				return
-			}
-			res := ast.Unparen(rs.Results[0])
-			if id, ok := res.(*ast.Ident); ok && id.Name == "nil" {
-				return
-			}
-			// last binding of a local on this path, and Longest() calls on it
-			lastDef := func(o types.Object) ast.Expr {
-				var def ast.Expr
-				for _, id := range nodes {
-					switch t := fg.Nodes[id].N.(type) {
-					case *ast.AssignStmt:
-						for i, l := range t.Lhs {
-							if identObj(info, l) != o {
-								continue
-							}
-							if len(t.Rhs) == len(t.Lhs) {
-								def = t.Rhs[i]
-							} else if len(t.Rhs) == 1 && i == 0 {
-								def = t.Rhs[0]
+			// edges[i] leads from nodes[i] to nodes[i+1]
+			posixFalse := false
+			bound := map[types.Object]int{} // function-valued locals -> constructor kind last bound
+			for i, id := range nodes {
+				if i > 0 && i-1 < len(edges) {
+					if e := edges[i-1]; e.Cond != nil && e.Tag == nil {
+						for _, at := range atomise(Fact{e.Cond, nil, e.Truth}) {
+							if identObj(info, at.Cond) == posix && !at.Truth {
+								posixFalse = true
 							}
 						}
-					case *ast.DeclStmt:
-						if gd, ok := t.Decl.(*ast.GenDecl); ok {
-							for _, sp := range gd.Specs {
-								if vs, ok := sp.(*ast.ValueSpec); ok {
-									for i, nm := range vs.Names {
-										if info.Defs[nm] == o && i < len(vs.Values) {
-											def = vs.Values[i]
+					}
+				}
+				x := fg.Nodes[id].N
+				if x == nil {
+					continue
+				}
+				// bindings of function values
+				record := func(lhs ast.Expr, rhs ast.Expr) {
+					if k := ctorKind(rhs); k != 0 {
+						if o := identObj(info, lhs); o != nil {
+							bound[o] = k
+						}
+					}
+				}
+				switch t := x.(type) {
+				case *ast.AssignStmt:
+					if len(t.Lhs) == len(t.Rhs) {
+						for j := range t.Lhs {
+							record(t.Lhs[j], t.Rhs[j])
+						}
+					}
+				case *ast.DeclStmt:
+					if gd, ok := t.Decl.(*ast.GenDecl); ok {
+						for _, sp := range gd.Specs {
+							if vs, ok := sp.(*ast.ValueSpec); ok && len(vs.Names) == len(vs.Values) {
+								for j := range vs.Names {
+									record(vs.Names[j], vs.Values[j])
+								}
+							}
+						}
+					}
+				}
+				for _, ce := range callsIn(x) {
+					k := ctorKind(ce.Fun)
+					if k == 0 {
+						if fo, isVar := identObj(info, ce.Fun).(*types.Var); isVar {
+							k = bound[fo]
+						}
+					}
+					if k != 1 {
+						continue
+					}
+					v := seen[ce.Pos()]
+					if v == nil {
+						v = &verdict{exprStr(ce), true}
+						seen[ce.Pos()] = v
+					}
+					if posixFalse {
+						continue
+					}
+					// the result variable and a later Longest() on it
+					var resObj types.Object
+					if as, ok := x.(*ast.AssignStmt); ok && len(as.Rhs) == 1 && ast.Unparen(as.Rhs[0]) == ast.Expr(ce) && len(as.Lhs) >= 1 {
+						resObj = identObj(info, as.Lhs[0])
+					}
+					longest := false
+					if resObj != nil {
+						for _, later := range nodes[i+1:] {
+							if y := fg.Nodes[later].N; y != nil {
+								for _, c2 := range callsIn(y) {
+									if calleeName(info, c2) == "(*regexp.Regexp).Longest" {
+										if se, ok := c2.Fun.(*ast.SelectorExpr); ok && identObj(info, se.X) == resObj {
+											longest = true
 										}
 									}
 								}
 							}
 						}
 					}
-				}
-				return def
-			}
-			longestOn := func(o types.Object) bool {
-				for _, id := range nodes {
-					if x := fg.Nodes[id].N; x != nil {
-						for _, ce := range callsIn(x) {
-							if calleeName(info, ce) == "(*regexp.Regexp).Longest" {
-								if se, ok := ce.Fun.(*ast.SelectorExpr); ok && identObj(info, se.X) == o {
-									return true
-								}
-							}
-						}
+					if !longest {
+						v.ok = false
 					}
 				}
-				return false
-			}
-			okOrigin := false
-			switch t := res.(type) {
-			case *ast.CallExpr:
-				if isPosixCtor(t) {
-					okOrigin = true
-				} else if fo, isVar := identObj(info, t.Fun).(*types.Var); isVar {
-					// a function-valued local: what it was last bound to on this path
-					if def := lastDef(fo); def != nil && isPosixCtor(def) {
-						okOrigin = true
-					}
-				}
-			case *ast.Ident:
-				if o := info.Uses[t]; o != nil {
-					if longestOn(o) {
-						okOrigin = true
-					} else if def := lastDef(o); def != nil {
-						if isPosixCtor(def) {
-							okOrigin = true
-						} else if ce, ok := ast.Unparen(def).(*ast.CallExpr); ok {
-							if fo, isVar := identObj(info, ce.Fun).(*types.Var); isVar {
-								if d2 := lastDef(fo); d2 != nil && isPosixCtor(d2) {
-									okOrigin = true
-								}
-							}
-						}
-					}
-				}
-			}
-			v := seen[rs.Pos()]
-			if v == nil {
-				v = &verdict{rs.Pos(), exprStr(res), true}
-				seen[rs.Pos()] = v
-			}
-			if !okOrigin {
-				v.ok = false
 			}
 		})
 		var poss []token.Pos
@@ -313,11 +291,11 @@ func c02PosixLongest(c *Ctx, r *Report, rule string) {
 		for _, p := range poss {
 			v := seen[p]
 			n++
-			r.Check(v.ok, rule, fi.Name, "return "+v.res, c.Pos(v.pos), "path: on every path on which the posix flag may hold, the expression returned was built by regexp.CompilePOSIX (or Longest() was called on it)",
-				"on a path where the posix flag may hold the function returns a regexp that was not built by regexp.CompilePOSIX and never had Longest() called: matching is leftmost-first, so {0}/{N} differ from the POSIX leftmost-longest match the flag selects (e.g. (warn|warning))")
+			r.Check(v.ok, rule, fi.Name, v.text, c.Pos(p), "path: the leftmost-first constructor is only reached with the posix flag known false (or Longest() is called on its result)",
+				"on a path where the posix flag may hold a regexp is built with a leftmost-first constructor and never has Longest() called: matching is leftmost-first, so {0}/{N} differ from the POSIX leftmost-longest match the flag selects (e.g. (warn|warning))")
 		}
 	}
-	r.Floor(rule, 1, "buildRegexp's POSIX return")
+	r.Floor(rule, 1, "the regexp.Compile call of the back end")
 }
 
 // ---------------------------------------------------------------- C06-g -z decides by probing the content
